@@ -1196,7 +1196,8 @@ class Standard(Output):
             std = verif.util.nanstd(y)
             minDiff = std / 50
             if F > 1:
-                Ieven = np.where(np.abs(y[:, 0] - y[:, 1]) < minDiff)[0]
+                # Only slices where every input has a score can be ties
+                Ieven = np.where((np.abs(y[:, 0] - y[:, 1]) < minDiff) & (invalid == 0))[0]
                 R[Ieven, :] = -1
             yy = np.zeros([F + 1, F])  # Rank, F
             for j in range(F):
